@@ -81,8 +81,19 @@ class LmResult:
         return getattr(self, name)
 
 
+def result_symbol(log, kind, i, upto=None):
+    """name of entry i of the result of the LAST call of back end `kind` recorded in log (first call: plain names)"""
+    n = sum(1 for e in (log if upto is None else log[:upto]) if e[0] == kind)
+    prefix = {"inv": "xinv", "nnls": "xnnls", "lsq_linear": "xlsql", "lsq": "xlm"}[kind]
+    return f"{prefix}{i}" + ("" if n <= 1 else f"_c{n}")
+
+
 def install_solvers(ctx, log, singular=False):
     from fvc import npmodel, lib
+
+    def suffix(kind):
+        n = sum(1 for e in log if e[0] == kind) + 1
+        return "" if n == 1 else f"_c{n}"
 
     def inv(it, a, k):
         A = lib._arr(it, a[0])
@@ -95,7 +106,8 @@ def install_solvers(ctx, log, singular=False):
         if A.ndim != 2 or b.ndim != 1 or A.shape[0] != b.shape[0]:
             raise I.IRaise(ValueError(f"Incompatible dimensions. The first dimension of A is {A.shape}, while the shape of b is {b.shape}"))
         n = A.shape[1]
-        x = [ctx.real(f"xnnls{i}") for i in range(n)]
+        sfx = suffix("nnls")
+        x = [ctx.real(f"xnnls{i}{sfx}") for i in range(n)]
         for v in x:
             ctx.assume(v >= 0, "A-nnls: x >= 0")
         log.append(("nnls", A, b))
@@ -106,7 +118,8 @@ def install_solvers(ctx, log, singular=False):
         if A.ndim != 2 or b.ndim != 1 or A.shape[0] != b.shape[0]:
             raise I.IRaise(ValueError("Inconsistent shapes between `A` and `b`."))
         n = A.shape[1]
-        x = [ctx.real(f"xlsql{i}") for i in range(n)]
+        sfx = suffix("lsq_linear")
+        x = [ctx.real(f"xlsql{i}{sfx}") for i in range(n)]
         for v in x:
             ctx.assume(v >= 0, "A-lsqlin: x within bounds (0, inf)")
         log.append(("lsq_linear", A, b, k.get("bounds")))
@@ -119,8 +132,9 @@ def install_solvers(ctx, log, singular=False):
         params, args = k["params"], k["args"]
         A, b = lib._arr(it, args[0]), lib._arr(it, args[1])
         out = LmParams()
+        sfx = suffix("lsq")
         for i, n in enumerate(params.names):
-            v = ctx.real(f"xlm{i}")
+            v = ctx.real(f"xlm{i}{sfx}")
             if params.p[n].min is not None:
                 ctx.assume(v >= params.p[n].min, "A-lmfit: parameters stay within their bounds")
             out.names.append(n)
